@@ -105,7 +105,7 @@ func ZZ_C07_impl_exact_dense()  { zzC07Impl(1, true) }
 var zzStrides = []int64{-1, 0, 40}
 
 func zzC07Grammar(dstKind int) {
-	zzvBound("grammar streams", "streams written by a reference encoder: block order from 3 permutations of {zero count, mapping, positive bins, negative bins, second positive block (repeated block)}, each bin block in one of the three documented layouts with 3 bins, strides from {-1,0,40}, repeated indexes; symbolic base index in [-8000,8000] (enumerated when the target is the paginated store); decoded by the real decoder into the given store kind")
+	zzvBound("grammar streams", "streams written by a reference encoder: block order from 3 permutations of {zero count, mapping, positive bins, negative bins, second positive block (repeated block), exact-summary statistics blocks (first, middle or last)}, each bin block in one of the three documented layouts with 3 bins, strides from {-1,0,40}, repeated indexes; symbolic base index in [-8000,8000] (enumerated when the target is the paginated store); decoded by the real decoder into the given store kind")
 	zzvExactFloatsOnly()
 	m, _ := mapping.NewLogarithmicMapping(0.01)
 	lm := m
@@ -171,8 +171,13 @@ func zzC07Grammar(dstKind int) {
 	negBlock := block("neg", 3, gn, base+2)
 	// the repeated positive block uses the layout after the first one's (all three layouts occur)
 	pos2 := block("pos2", 1, gp, base+1)
-	orders := [][]int{{0, 1, 2, 3, 4}, {4, 3, 2, 1, 0}, {2, 4, 0, 3, 1}}
-	blocks := [][]byte{zeroBlock, mapBlock, posBlock, negBlock, pos2}
+	// exact-summary statistics blocks (ignored by the plain decoder wherever they stand, also last)
+	stats := zzPutVarfloat([]byte{0x28 << 2}, 7)
+	stats = zzPutFloat64LE(append(stats, 0x21<<2), 1.5)
+	stats = zzPutFloat64LE(append(stats, 0x22<<2), -3)
+	stats = zzPutFloat64LE(append(stats, 0x23<<2), 1e9)
+	orders := [][]int{{0, 1, 2, 3, 4, 5}, {5, 4, 3, 2, 1, 0}, {2, 4, 0, 5, 3, 1}}
+	blocks := [][]byte{zeroBlock, mapBlock, posBlock, negBlock, pos2, stats}
 	var stream []byte
 	for _, k := range orders[zzvChoose("order", len(orders))] {
 		stream = append(stream, blocks[k]...)
@@ -263,6 +268,36 @@ func zzRefTotal(bins []zzRefBin) float64 {
 		t += b.count
 	}
 	return t
+}
+
+// a paginated store holding more unit entries than one decode batch (64): every cut of a 100-bin
+// index-delta block (indexes enumerated; the run is interpreter-executed)
+func ZZ_C08_cuts_pag_many_buffered() {
+	zzvBound("long index-delta block", "100 unit-weight bins at indexes 0,3,6,...,297 in a paginated source, every cut position, paginated and sparse consumers")
+	m := zzRealMapping(0)
+	src := NewDDSketch(m, store.NewBufferedPaginatedStore(), store.NewBufferedPaginatedStore())
+	for k := 0; k < 100; k++ {
+		src.positiveValueStore.Add(3 * k)
+	}
+	b := []byte{}
+	src.Encode(&b, false)
+	zzvCover("encoded")
+	zzvUnwind(100000)
+	dstKind := []int{2, 0}[zzvChoose("dstKind", 2)]
+	for cut := 0; cut <= len(b); cut++ {
+		prefix := append([]byte{}, b[:cut]...)
+		ref, ok := zzRefDecode(prefix)
+		dst, err := DecodeDDSketch(prefix, zzProvider(dstKind), nil)
+		if !ok {
+			zzvAssert("cut-inside-a-block-is-an-error", err != nil)
+			continue
+		}
+		if !ref.hasMapping {
+			zzvAssert("cut-before-mapping-block-reports-missing-mapping", err != nil)
+			continue
+		}
+		zzvAssert("boundary-cut-ok", err == nil && dst.positiveValueStore.TotalCount() == zzRefTotal(ref.pos))
+	}
 }
 
 func ZZ_C08_cuts_sparse_sparse() { zzC08Cuts(0, 0, false) }
